@@ -119,6 +119,56 @@ pub fn gen_single(rng: &mut Rng) -> Case {
     c
 }
 
+// ---------------------------------------------------------------- family: every growing op at its size limit
+/// Each op that can grow the stack, the memory or the repeat stack, from a state in which the result lands one
+/// below, exactly at, or one above the documented limit.
+pub fn gen_limits(rng: &mut Rng) -> Case {
+    let mut c = Case { family: "limits", ..Default::default() };
+    let delta = rng.range(-1, 1);                      // result size relative to the limit
+    let seq = |n: usize| -> Vec<Word> { (0..n).map(|i| i as Word).collect() };
+    match rng.below(13) {
+        0 => { c.stack = seq((4095 + delta) as usize); c.ops = vec![push(rng.word())]; }
+        1 => { c.stack = seq((4095 + delta) as usize); c.ops = vec![DUP]; }
+        2 => { let mut s = seq((4095 + delta.min(0)) as usize); s.push(rng.range(0, 3)); c.stack = s; c.ops = vec![DUPF]; }
+        3 => { // Reserve: start + len (+1 for the returned index) around 4096
+            let base = *rng.pick(&[0usize, 1, 10, 4000, 4090]);
+            let mut s = seq(base); s.push(4096 + delta - base as i64 - if rng.chance(1, 2) { 1 } else { 0 }); c.stack = s; c.ops = vec![RES];
+        }
+        4 => { // LoadRange: pushes `size` words
+            let base = *rng.pick(&[0usize, 7, 4000]);
+            let size = 4096 + delta - base as i64;
+            c.memory = seq(size.max(0) as usize + 2);
+            let mut s = seq(base); s.push(0); s.push(size); c.stack = s; c.ops = vec![LODR];
+        }
+        5 => { let base = *rng.pick(&[0usize, 7, 4000]); let size = 4096 + delta - base as i64;
+               c.parent = Some(seq(size.max(0) as usize + 1)); let mut s = seq(base); s.push(1.min(size)); s.push(size - 1.min(size)); c.stack = s; c.ops = vec![LODPR]; }
+        6 => { // Alloc around the memory limit
+            let m = *rng.pick(&[0usize, 5, 10000, 10239]);
+            c.memory = seq(m); c.stack = vec![10240 + delta - m as i64]; c.ops = vec![ALOC];
+        }
+        7 => { c.stack = seq((4092 + delta) as usize); c.ops = vec![rng.pick(&[THIS, THISC]).clone()]; }
+        8 => { // PredicateData pushing k words
+            let k = rng.range(4, 6) as usize;
+            c.sols[0].predicate_data = vec![(0..k as i64).collect()];
+            let mut s = seq((4096 + delta) as usize - k); s.extend([0, 0, k as i64]); c.stack = s; c.ops = vec![DATA];
+        }
+        9 => { let mut s = seq((4092 + delta) as usize); s.push(0); c.stack = s; c.ops = vec![SHA2]; c.sha.push(vec![]); }
+        10 => { c.stack = seq((4095 + delta) as usize); c.ops = vec![rng.pick(&[DSLT, push(1)]).clone()]; }
+        11 => { // Compute: joined memory around the limit
+            let k = rng.range(1, 4);
+            let m = 10240 + delta - 2 * k;
+            c.memory = seq(m as usize);
+            c.ops = vec![push(2), COM, push(k), ALOC, POP, COME];
+        }
+        _ => { // state read writing exactly to the end of memory
+            let m = rng.range(4, 12) as usize;
+            c.memory = seq(m); c.view_seed = rng.next();
+            c.ops = vec![push(7), push(1), push(2), push(m as i64 - 4 + delta), KRNG];
+        }
+    }
+    c
+}
+
 // ---------------------------------------------------------------- snippets for programs
 fn snippet(rng: &mut Rng, out: &mut Vec<Op>) {
     match rng.below(30) {
@@ -397,7 +447,7 @@ fn vary_gas(rng: &mut Rng, c: &mut Case) {
         4 => { let t = vec![(0x90u8, *rng.pick(&[0u64, 5, 1 << 40])), (0x01u8, rng.range(1, 4) as u64)]; c.cost = Cost::Table(t, 1); }
         _ => {}
     }
-    c.limit = match rng.below(10) { 0 => 0, 1 => 1, 2 => rng.range(2, 30) as u64, 3 => u64::MAX, 4 => (c.limit as i64 + rng.range(-3, 3)).max(0) as u64, _ => c.limit };
+    c.limit = match rng.below(20) { 0 => 0, 1 => 1, 2 | 3 => rng.range(2, 30) as u64, 4 | 5 => u64::MAX, 6..=8 => (c.limit as i64 + rng.range(-3, 3)).max(0) as u64, _ => c.limit };
     if c.cost.min() == 0 && has_back { c.cost = Cost::Const(1); }
     // keep the number of executed operations small enough for the model to replay
     let min = c.cost.min().max(1);
@@ -409,7 +459,8 @@ pub fn run(a: &Args) {
     let evals: Vec<String> = flag(a, "--evals").map(|s| s.split(',').map(|x| x.to_string()).collect()).unwrap_or_else(|| vec!["vm_mismatches".into()]);
     let gas = a.extra.iter().any(|x| x == "--gas");
     let sweep = a.extra.iter().any(|x| x == "--sweep");
-    let ev: Vec<&str> = evals.iter().map(|s| s.as_str()).collect();
+    let mut ev: Vec<&str> = evals.iter().map(|s| s.as_str()).collect();
+    if a.only.is_some() { ev.push("show_models"); }   // replay: also print the model's result
     let mut out = Out::new("From EB Require Import Corr.RunVm.", "vm_case", &ev);
     out.only = a.only;
     let all = crate::e_asm::all_ops();
@@ -421,6 +472,8 @@ pub fn run(a: &Args) {
         let obs = run_case(c);
         out.bump(&format!("family_{}", c.family));
         out.bump(if obs.panicked { "impl_panic" } else if obs.is_err { "impl_err" } else { "impl_ok" });
+        if let Some(e) = obs.res_json.get("err") { out.bump(&format!("err_class_{}", e[1])); }
+        out.bump(&format!("steps_{}", match obs.steps { 0 => "0", 1 => "1", 2..=9 => "2-9", 10..=99 => "10-99", _ => "100+" }));
         let nt = obs.steps >= 2 || c.family == "single";
         out.push(id, obs.lit.clone(), describe(c, &obs), nt);
         id += 1;
@@ -432,6 +485,7 @@ pub fn run(a: &Args) {
         let fam = rng.pick(&fams).clone();
         let mut c = match fam.as_str() {
             "single" => gen_single(&mut rng),
+            "limits" => gen_limits(&mut rng),
             "prog" => gen_prog(&mut rng),
             "malformed" => gen_malformed(&mut rng, &all),
             "control" => gen_control(&mut rng),
@@ -472,5 +526,10 @@ pub fn corpus() -> Vec<Case> {
     v.push(Case { family: "compute", ops: vec![push(4), COM, push(1), POP, COME], limit: 10, ..Default::default() });
     v.push(Case { family: "compute", ops: vec![push(4), COM, push(1), POP, COME], limit: 14, ..Default::default() });
     v.push(Case { family: "compute", ops: vec![push(4), COM, push(1), POP, COME], limit: 13, ..Default::default() });
+    // the repeat stack at its limit: 4096 nested Repeat succeed, the 4097th fails
+    for n in [4096usize, 4097] {
+        let mut ops = vec![]; for _ in 0..n { ops.extend([push(1), push(1), REP]); }
+        v.push(Case { family: "limits", ops, limit: 20_000, ..Default::default() });
+    }
     v
 }
